@@ -121,7 +121,9 @@ def main():
         print(f"KNOWN-FINDING: property={pid} key={key} {hit['finding']['text']} "
               f"[{hit['n']} case(s) this run; first: {hit['first']}]", flush=True)
     nviol = len(ctx.violations)
-    if nviol and rc == 0:
+    if nviol and rc in (0, 2):
+        # a property-layer violation observed on the real code stands even if a later stage of the machinery failed
+        # (e.g. a self-test that needs accepted traces and finds none)
         rc = 1
         (VERIF / "replays").mkdir(exist_ok=True)
         for i, v in enumerate([v for v in ctx.violations if v][:10]):
